@@ -270,8 +270,8 @@ MUTANTS = [
      "    s_theta1 = np.where(s_theta1 < 0, s_theta1 + 2 * np.pi, s_theta1)\n",
      "    s_theta1[s_theta1 < 0] += 2 * np.pi\n"),
     ("c14-sphere-params-sum-axis", ["C14", "C04"], "SH5", H,
-     "            klein_midpoint = klein_basis.sum(axis=-2) / klein_basis.shape[-2]",
-     "            klein_midpoint = klein_basis.sum(axis=-1) / klein_basis.shape[-2]"),
+     "    midpoint of the chord between them.\"\"\"\n    if points.shape[-2] == 2:\n        return points.sum(axis=-2) / 2",
+     "    midpoint of the chord between them.\"\"\"\n    if points.shape[-2] == 2:\n        return points.sum(axis=-1) / 2"),
     ("c14-halfspace-radius-index", ["C14", "C04"], "SH5", H,
      "                utils.normsq(halfspace_basis[..., 0, :] - halfspace_midpoint)",
      "                utils.normsq(halfspace_basis[..., 0] - halfspace_midpoint)"),
@@ -420,7 +420,7 @@ MUTANTS = [
      "    horizontal = utils.c_to_r(2 * np.conjugate(z0) * z1 / normsq)",
      "    horizontal = utils.c_to_r(2 * np.conjugate(z0) * z1 / np.sqrt(normsq))"),
     ("c12-poincare-midpoint-unnormalised", ["C12"], "HOM1", H,
-     "            klein_basis = self.ideal_basis_coords(model=Model.KLEIN)\n            klein_midpoint = klein_basis.sum(axis=-2) / klein_basis.shape[-2]",
+     "            klein_basis = self.ideal_basis_coords(model=Model.KLEIN)\n            klein_midpoint = _flat_center(klein_basis)",
      "            klein_midpoint = kleinian_coords(self.ideal_basis.sum(axis=-2))"),
     ("c15-reflection-transpose-for-inverse", ["C15"], "HOM1", H,
      "        refdata = (utils.invert(dual_data) @\n                   self.minkowski @\n                   dual_data)",
@@ -522,6 +522,56 @@ MUTANTS = [
     ("c20-swapped-roles", ["C20"], "K2", X,
      "        contain, contained, intersect = utils.disk_interactions(\n            sctr, srad, octr, orad, broadcast=broadcast\n        )\n\n        res = np.full(contain.shape, True)",
      "        contain, contained, intersect = utils.disk_interactions(\n            octr, orad, sctr, srad, broadcast=broadcast\n        )\n\n        res = np.full(contain.shape, True)"),
+    # ---- rules written from round 7
+    ("c14-sphere-mean-of-basis", ["C14"], "MEAN2", H,
+     "            klein_midpoint = _flat_center(klein_basis)",
+     "            klein_midpoint = klein_basis.sum(axis=-2) / klein_basis.shape[-2]"),
+    ("c14-circumcenter-mean", ["C14"], "MEAN2", H,
+     "            halfspace_midpoint = _circumcenter(halfspace_basis)",
+     "            halfspace_midpoint = halfspace_basis.mean(axis=-2)"),
+    ("c14-flat-center-unguarded-mean", ["C14"], "MEAN2", H,
+     "    midpoint of the chord between them.\"\"\"\n    if points.shape[-2] == 2:\n        return points.sum(axis=-2) / 2\n",
+     "    midpoint of the chord between them.\"\"\"\n    if points.shape[-2] <= 3:\n        return points.sum(axis=-2) / points.shape[-2]\n"),
+    ("c04-circumcenter-len", ["C04"], "MEAN1", H,
+     "    their affine span. For two points this is their midpoint.\"\"\"\n    if points.shape[-2] == 2:\n        return points.sum(axis=-2) / 2",
+     "    their affine span. For two points this is their midpoint.\"\"\"\n    if points.shape[-2] == 2:\n        return points.sum(axis=-2) / len(points)"),
+    ("c09-parse-list-lstrip", ["C09"], "OFS1", G + "automata/gap_parse.py",
+     "def parse_list(text):\n",
+     "def parse_list(text):\n    text = text.lstrip(WHITESPACE)\n"),
+    ("c09-parse-quote-on-stripped-copy", ["C09"], "OFS1",
+     G + "automata/gap_parse.py",
+     "    close_quote = text.find('\"')",
+     "    body = text.strip()\n    close_quote = body.find('\"')"),
+    ("c09-parse-contents-slice", ["C09"], "OFS1", G + "automata/gap_parse.py",
+     "    content = \"\"\n    for i, c in enumerate(text):\n        if c == '\"':\n            content, offset = parse_quote(text[i + 1:])",
+     "    content = \"\"\n    rest = text[1:]\n    for i, c in enumerate(rest):\n        if c == '\"':\n            content, offset = parse_quote(text[i + 1:])"),
+    ("c17-irrep-loop-no-lower-bound", ["C17"], "EXP1", G + "lie/core.py",
+     "            for i in range(max(0, j - r + k), min(j+1, k+1)):",
+     "            for i in range(min(j, k) + 1):"),
+    ("c17-irrep-loop-upper-bound", ["C17"], "EXP1", G + "lie/core.py",
+     "            for i in range(max(0, j - r + k), min(j+1, k+1)):",
+     "            for i in range(max(0, j - r + k), j + 1):"),
+    ("c17-irrep-exponent-off-by-one", ["C17"], "EXP1", G + "lie/core.py",
+     "                          * d**(r - k - j + i))",
+     "                          * d**(r - k - j + i - 1))"),
+    ("c13-interior-angle-single-arcsin", ["C13"], "RNG1", H,
+     "    return 2 * np.arcsin(np.cos(gamma) / denom)",
+     "    return np.arcsin(np.minimum(2 * (np.cos(gamma) / denom) * np.sqrt(1 - (np.cos(gamma) / denom)**2), 1))"),
+    ("c13-angle-arcsin", ["C13"], "RNG1", H,
+     "        return np.arccos(product)",
+     "        return np.pi / 2 - np.arcsin(product) / 2"),
+    ("c13-angle-arctan", ["C13"], "RNG1", H,
+     "        return np.arccos(product)",
+     "        return np.arctan(np.sqrt(1 - product**2) / product)"),
+    ("c01-distance-arccos-of-inverse", ["C01"], "RNG1", H,
+     "        return np.arccosh(np.maximum(np.abs(products), 1))",
+     "        return np.arccos(1 / np.maximum(np.abs(products), 1))"),
+    ("c19-circle-angles-arctan", ["C19"], "RNG1", C,
+     "    return np.arctan2(ys, xs)",
+     "    return np.arctan(ys / xs)"),
+    ("c11-tangent-keep-if-tangent", ["C11"], "HOM1", H,
+     "        return np.stack([point_data, projected], axis=-2)",
+     "        products = utils.apply_bilinear(point_data, vec_data, minkowski(point_data.shape[-1], base_ring))\n        projected = np.where((np.abs(products) <= ERROR_THRESHOLD)[..., np.newaxis], vec_data, projected)\n        return np.stack([point_data, projected], axis=-2)"),
 ]
 
 # independently seeded changes (sub-agents; /verif/seeded/<id>/patch.diff):
@@ -621,12 +671,29 @@ SEEDED = [
     ("r6-C14-2", "C14", "SH2"), ("r6-C15-1", "C15", "LK1"),
     ("r6-C16-2", "C16", "EIG1"), ("r6-C17-2", "C17", "CLO1"),
     ("r6-C18-2", "C18", "AX1"), ("r6-C20-1", "C20", "K2"),
+    ("r5-C16-1", "C16", "SGN1"),
+    # round 7 (unsteered): 3 of 36 caught by the property's own check when
+    # first evaluated
+    ("r7-C01-1", "C01", "HD1"), ("r7-C03-1", "C03", "PINV1"),
+    ("r7-C03-2", "C03", "M4"), ("r7-C05-2", "C05", "INVS1"),
+    ("r7-C06-2", "C06", "M5"), ("r7-C08-1", "C08", "P1q"),
+    ("r7-C10-1", "C10", "BFS3"), ("r7-C10-2", "C10", "RF1"),
+    ("r7-C11-1", "C11", "SGN1"), ("r7-C12-1", "C12", "C2"),
+    ("r7-C12-2", "C12", "NP3"), ("r7-C13-2", "C13", "SH5"),
+    ("r7-C14-1", "C14", "ENUM1"), ("r7-C14-2", "C14", "HOM1"),
+    ("r7-C15-2", "C15", "SGN1"), ("r7-C16-2", "C16", "SGN1"),
+    ("r7-C18-2", "C18", "SH2"), ("r7-C19-1", "C19", "SGN1"),
+    ("r7-C20-2", "C20", "HOM1"), ("r7-C09-2", "C09", "OFS1"),
+    ("r7-C11-2", "C11", "HOM1"), ("r7-C13-1", "C13", "RNG1"),
+    ("r7-C17-1", "C17", "EXP1"),
 ]
 # seeded changes no static rule here decides (numerical / heuristic):
 # C14-1, C15-1, C15-2, C19-1, C20-2, r2-C12-2, r2-C14-1, r2-C15-2, r2-C19-1,
 # r2-C20-2, r5-C03-2, r5-C08-1, r5-C08-2, r5-C09-2, r5-C10-1, r5-C10-2,
-# r5-C16-1, r5-C17-1, r5-C18-2, r6-C05-2, r6-C13-1, r6-C13-2, r6-C15-2,
-# r6-C16-1, r6-C17-1, r6-C18-1, r6-C19-1, r6-C19-2, r6-C20-2 -- see DESIGN.md
+# r5-C17-1, r5-C18-2, r6-C05-2, r6-C13-1, r6-C13-2, r6-C15-2,
+# r6-C16-1, r6-C17-1, r6-C18-1, r6-C19-1, r6-C19-2, r6-C20-2, r7-C01-2,
+# r7-C04-1, r7-C04-2, r7-C05-1, r7-C06-1, r7-C08-2, r7-C09-1, r7-C15-1,
+# r7-C16-1, r7-C17-2, r7-C18-1, r7-C19-2, r7-C20-1 -- see DESIGN.md
 # section 6.2
 
 # behaviour-preserving edits: every listed property must stay silent (exit 0)
@@ -749,8 +816,8 @@ NEUTRAL = [
      "    hyperbolized = hyperbolized * np.where(hyperbolized[..., :1] < 0, -1, 1)\n",
      "    lower = hyperbolized[..., 0] < 0\n    hyperbolized = np.array(hyperbolized)\n    hyperbolized[lower] *= -1\n"),
     ("n-klein-midpoint-mean", ["C12", "C14"], H,
-     "            klein_midpoint = klein_basis.sum(axis=-2) / klein_basis.shape[-2]",
-     "            klein_midpoint = klein_basis.mean(axis=-2)"),
+     "    midpoint of the chord between them.\"\"\"\n    if points.shape[-2] == 2:\n        return points.sum(axis=-2) / 2",
+     "    midpoint of the chord between them.\"\"\"\n    if points.shape[-2] == 2:\n        return points.mean(axis=-2)"),
     ("n-hopf-abs-squared", ["C20"], G + "complex_projective.py",
      "    normsq = np.abs(z0 * np.conjugate(z0) + z1 * np.conjugate(z1))",
      "    normsq = np.abs(z0)**2 + np.abs(z1)**2"),
@@ -763,6 +830,24 @@ NEUTRAL = [
     ("n-aligned-sign", ["C12"], H,
      "        aligned = other.proj_data * np.expand_dims(-np.sign(products), axis=-1)",
      "        aligned = -np.sign(products)[..., np.newaxis] * other.proj_data"),
+    ("n-irrep-guarded-loop", ["C17"], G + "lie/core.py",
+     "            for i in range(max(0, j - r + k), min(j+1, k+1)):\n",
+     "            for i in range(min(j, k) + 1):\n                if r - k - j + i < 0:\n                    continue\n"),
+    ("n-irrep-bounds-rewritten", ["C17"], G + "lie/core.py",
+     "            for i in range(max(0, j - r + k), min(j+1, k+1)):",
+     "            for i in range(max(j - (r - k), 0), 1 + min(k, j)):"),
+    ("n-interior-angle-via-pi", ["C13"], H,
+     "    return 2 * np.arcsin(np.cos(gamma) / denom)",
+     "    return pi - 2 * np.arccos(np.cos(gamma) / denom)"),
+    ("n-angle-clip", ["C13"], H,
+     "        return np.arccos(product)",
+     "        return np.arccos(np.clip(product, -1, 1))"),
+    ("n-parse-list-local-copy", ["C09"], G + "automata/gap_parse.py",
+     "    interval = re.match(r\"((-?\\d+)\\.\\.(-?\\d+)\\])\", text)",
+     "    head = text[:64]\n    interval = re.match(r\"((-?\\d+)\\.\\.(-?\\d+)\\])\", head)"),
+    ("n-flat-center-mean", ["C12", "C14", "C04"], H,
+     "    their affine span. For two points this is their midpoint.\"\"\"\n    if points.shape[-2] == 2:\n        return points.sum(axis=-2) / 2",
+     "    their affine span. For two points this is their midpoint.\"\"\"\n    if points.shape[-2] == 2:\n        return (points[..., 0, :] + points[..., 1, :]) / 2"),
 ]
 
 
